@@ -1,7 +1,9 @@
 package recovery
 
 import (
+	"errors"
 	"iter"
+	"os"
 
 	"reduction.dev/reduction/dkv/kv"
 	"reduction.dev/reduction/dkv/sst"
@@ -53,7 +55,9 @@ func newCheckpointFromDocument(fs storage.FileSystem, dataOwnership kv.DataOwner
 
 func (cp *Checkpoint) Destroy() error {
 	for _, wal := range cp.WALs {
-		if err := wal.Delete(); err != nil {
+		// After a rescale several instances inherit the same WAL file and each
+		// removes it when the checkpoint is dropped; already gone is fine.
+		if err := wal.Delete(); err != nil && !errors.Is(err, os.ErrNotExist) && !errors.Is(err, storage.ErrNotFound) {
 			return err
 		}
 	}
